@@ -1079,3 +1079,13 @@ Proof.
   split; [|vm_compute; reflexivity].
   split; [apply ascii_text_chk; reflexivity|]. split; [vm_compute; intuition discriminate|vm_compute; left; reflexivity].
 Qed.
+
+(* get_iobuf_bytes as a whole: the two struct reads, then the walk *)
+Theorem iobuf_bytes_chain : forall rd p size a blocks fuel,
+  read_sv_int rd sv_iobuf_size = Ok size -> read_vcpu_int rd "iobuf" p = Ok a ->
+  chain_at rd size a blocks -> (length blocks < fuel)%nat ->
+  get_iobuf_bytes fuel rd p = Ok (chain_text blocks).
+Proof.
+  intros rd p size a blocks fuel Hs Ha Hc Hf. unfold get_iobuf_bytes. rewrite Hs. cbn [bind]. rewrite Ha. cbn [bind].
+  apply iobuf_chain; assumption.
+Qed.
